@@ -368,7 +368,8 @@ def r12_parameter_laws(ctx):
   it = absint.Interp(ctx.repo, ctx.ev, hooks={})
   rs.exhaustive = True
   ranges = [(F(0), F(0)), (F(-1), F(1)), (F(0), F(6)), (F(-3), F(-1)), (F(2), F(5)), (F(-1, 10 ** 6), F(1, 10 ** 6)), (F(-1000), F(1, 1000)), (F(1, 10 ** 5), F(1, 10 ** 5)),
-            (F(-7, 3), F(11, 7)), (F(-10 ** 6), F(10 ** 6)), (F(-1, 3), F(0))]
+            (F(-7, 3), F(11, 7)), (F(-10 ** 6), F(10 ** 6)), (F(-1, 3), F(0)),
+            (F(-10 ** 42), F(10 ** 45)), (F(0), F(10 ** 60))]   # statistics are double precision: magnitudes beyond float32 still need a finite scale
   for bits in (4, 8, 16):
     for sym in (True, False):
       lo, hi = -(1 << (bits - 1)), (1 << (bits - 1)) - 1
@@ -382,6 +383,10 @@ def r12_parameter_laws(ctx):
         zp, sc = outs[0].value
         if not (absint._is_num(zp) and absint._is_num(sc)):  # pylint: disable=protected-access
           ctx.check(R, False, zs.node, zs, label, f'not folded: zero point {zp!r}, scale {sc!r}')
+          continue
+        import math  # pylint: disable=g-import-not-at-top
+        if any(isinstance(v, float) and not math.isfinite(v) for v in (sc, zp)):
+          ctx.check(R, False, zs.node, zs, f'{label}: scale {sc!r}, zero point {zp!r}', 'scale and zero point must be finite (the statistics are finite double-precision numbers)')
           continue
         sc, zpf = F(sc), F(zp)
         ctx.check(R, sc > 0, zs.node, zs, f'{label}: scale {float(sc):.6g}', 'the scale must be positive')
